@@ -52,13 +52,22 @@ DvFamily(ch, pfx, fam, h, val) ==
   LET ms == DvMuts(ch, DvGenuine(ch, h, val)) IN
   {Entry(pfx, [ms[i] EXCEPT !.key = "k:" \o pfx \o ms[i].mut], h * 10000 + fam * 100 + i) : i \in DOMAIN ms}
 
+\* precommit pair (dv = the genuine item) and, for the same validator, height, round and blocks,
+\* the PREVOTE pair (dv = the "prevotes" item): two distinct pieces of evidence
 Pair(ch, pfx, h, val) ==
   LET g == DvGenuine(ch, h, val)
       nx == ValsAt(ch, h + 1)
-  IN [h |-> h, val |-> val, blkA |-> "b1", blkB |-> "b2", dv |-> pfx \o "genuine",
+  IN [h |-> h, val |-> val, t |-> 2, r |-> 0, blkA |-> "b1", blkB |-> "b2", dv |-> pfx \o "genuine",
       late |-> IF val \notin DOMAIN nx THEN "nil"
                ELSE IF <<nx[val], Total(nx)>> # <<g.power, g.total>> THEN pfx \o "valsnext"
                ELSE pfx \o "genuine"]
+PrevotePair(ch, pfx, h, val) ==
+  LET g == DvGenuine(ch, h, val)
+      nx == ValsAt(ch, h + 1)
+  IN [h |-> h, val |-> val, t |-> 1, r |-> 0, blkA |-> "b1", blkB |-> "b2", dv |-> pfx \o "prevotes",
+      late |-> IF val \notin DOMAIN nx THEN "nil"
+               ELSE IF <<nx[val], Total(nx)>> # <<g.power, g.total>> THEN "?" \o pfx \o "prevotes-with-next-set"
+               ELSE pfx \o "prevotes"]
 
 \* ------------------------------------------------------------------ light client attacks
 Phantom == "n5"
